@@ -27,6 +27,17 @@ Proof.
   split; vm_compute; reflexivity.
 Qed.
 
+(* Acceptance of normal forms: a strict SemVer string whose number is 2^63-1 (the value the library
+   reserves for infinity) is rejected although the specification (and x/mod/semver, the Rust semver
+   crate) accept it: known finding F-C02-23.  Below that bound strict strings are accepted
+   (C02_strict_parses, when proved; decided by the oracle on every generated strict string). *)
+Theorem C02_accepts_refuted : exists s e,
+  (exists sv, parse_strict s = Some sv) /\ parse SCargo s = Err e /\ parse SGo (118%N :: s) = Err e.
+Proof.
+  exists [57;50;50;51;51;55;50;48;51;54;56;53;52;55;55;53;56;48;55;46;48;46;48]%N. eexists. split; [eexists; vm_compute; reflexivity|].
+  split; vm_compute; reflexivity.
+Qed.
+
 (* Non-vacuity, through the model's own parser: 1.0.0-alpha.1 < 1.0.0-alpha.beta < 1.0.0-rc.1 < 1.0.0. *)
 Example C02_semver_example :
   let p s := match parse SNPM s with Ok v => Some v | _ => None end in
